@@ -250,7 +250,10 @@ pub trait Prop: Sync {
 }
 
 pub fn install_quiet_panic_hook() {
-    std::panic::set_hook(Box::new(|_| {}));
+    // (VH_LOUD=1 keeps the default hook: debugging aid for a panic of the harness itself)
+    if std::env::var("VH_LOUD").is_err() {
+        std::panic::set_hook(Box::new(|_| {}));
+    }
 }
 
 // ---------------------------------------------------------------------------
